@@ -43,7 +43,8 @@ class Ctx:
 
 
 class SpecGen:
-    def __init__(self, rng, wu_bias=False, size=1.0, awkward_names=False, allow_empty=False):
+    def __init__(self, rng, wu_bias=False, size=1.0, awkward_names=False, allow_empty=False, shuffle_files=False):
+        self.shuffle_files = shuffle_files
         self.allow_empty = allow_empty
         self.rng = rng
         self.wu = wu_bias
@@ -96,10 +97,16 @@ class SpecGen:
         fam = S.Enum("PacketFamily", rng.choice(["byte", "char"]), self.enum_values("byte", rng.randrange(2, 6)), self.comment())
         act = S.Enum("PacketAction", rng.choice(["byte", "char"]), self.enum_values("byte", rng.randrange(2, 6)), self.comment())
         order = ["", "net", "map", "pub", "pub/server", "net/client", "net/server"]
+        if self.shuffle_files:
+            # types may only refer to types created earlier, so a shuffled creation order yields cross-file
+            # references in every direction (e.g. a map type using a net/server struct)
+            rest = order[:]
+            rng.shuffle(rest)
+            order = rest
+            self.feat("files-created-in-shuffled-order")
+        spec.files["net"].enums += [fam, act]
         for path in order:
             f = spec.files[path]
-            if path == "net":
-                f.enums += [fam, act]
             n_enums = rng.randrange(0, 3) if path else rng.randrange(1, 4)
             for _ in range(int(n_enums * self.size + 0.5)):
                 f.enums.append(self.gen_enum(path))
